@@ -727,3 +727,23 @@ def run(ctx):
     ctx.section(_sec_stale)
     ctx.section(_optional_rule, ctx, index)
 
+    def _sec_inputmut():
+        # "the three variants are interchangeable: parsing any of the three emissions of ONE interface gives the same
+        # result": the three emitters are handed the same description one after the other, so none of them may strip the
+        # [PK] / [FK] markers or the Optional[...] wrapper from the caller's columns, or add the synthetic `id` to them;
+        # and parsing one class twice must give the same columns (the class parser leaves the tree alone)
+        from . import c10
+
+        ents = []
+        for q in ("cdd.sqlalchemy.emit.sqlalchemy", "cdd.sqlalchemy.emit.sqlalchemy_table", "cdd.sqlalchemy.emit.sqlalchemy_hybrid"):
+            f_ = index.func(q)
+            ents.append((f_, f_.params[0]))
+        c10.inputmut_rule(ctx, "C05.inputmut", ents, "the variant emitted next from the same description has other keys, other nullability or another primary key")
+        pents = []
+        for q in ("cdd.sqlalchemy.parse.sqlalchemy", "cdd.sqlalchemy.parse.sqlalchemy_table", "cdd.sqlalchemy.parse.sqlalchemy_hybrid"):
+            f_ = index.func(q)
+            pents.append((f_, f_.params[0]))
+        c10.inputmut_rule(ctx, "C05.inputmut", pents, "parsing the same tree again gives other columns", objects_only=True)
+
+    ctx.section(_sec_inputmut)
+
